@@ -1,7 +1,73 @@
-/-  C16/Driver — line protocol front end (core-only).  Placeholder until the property is built. -/
-import OttoVerif.Base.Proto
-namespace OttoVerif.C16.Driver
+/-
+  C16/Driver — line protocol front end (core-only).
+  request:  <op> <args…>      reply:  <model> <spec> <dev>
 
-def handle (_ws : List String) : String := "bad-op"
+    num <t> <n>        call a Go `func(T)` with the JavaScript number n (Go payload kind given)
+-/
+import OttoVerif.Base.Proto
+import OttoVerif.C16.Spec
+namespace OttoVerif.C16.Driver
+open OttoVerif.F64 OttoVerif.Proto OttoVerif.C16
+
+def ik? : String → Option IK
+  | "i8" => some .i8 | "i16" => some .i16 | "i32" => some .i32 | "i64" => some .i64 | "int" => some .int
+  | "u8" => some .u8 | "u16" => some .u16 | "u32" => some .u32 | "u64" => some .u64 | "uint" => some .uint
+  | _ => none
+
+def ikOut : IK → String
+  | .i8 => "i8" | .i16 => "i16" | .i32 => "i32" | .i64 => "i64" | .int => "int"
+  | .u8 => "u8" | .u16 => "u16" | .u32 => "u32" | .u64 => "u64" | .uint => "uint"
+
+def nt? (s : String) : Option NT :=
+  if s = "f32" then some .f32 else if s = "f64" then some .f64 else (ik? s).map .i
+
+def num? (t : String) : Option Num :=
+  match t.splitOn ":" with
+  | ["f", h] => (f64? h).map .f64
+  | ["f64", h] => (f64? h).map .f64
+  | ["f32", h] => (f64? h).map .f32
+  | [k, i] => do let k ← ik? k; let i ← int? i; pure (.int k i)
+  | _ => none
+
+def numOut : Num → String
+  | .int k i => ikOut k ++ ":" ++ toString i
+  | .f32 x => "f32:" ++ f64Out x
+  | .f64 x => "f64:" ++ f64Out x
+
+def resOut {α} (f : α → String) : Res α → String
+  | .ok a => "ok:" ++ f a
+  | .rangeErr => "throw:RangeError"
+  | .typeErr => "throw:TypeError"
+  | .goPanic => "gopanic"
+
+/-! deviation regions – decidable predicates over the request -/
+
+/-- the call path rounds silently when the target is a float type -/
+def devNum (v : Num) (t : NT) : List String :=
+  if v.ty = t then [] else
+  match v, t with
+  | .int _ _, .f64 => if Spec.sameNumber v (Spec.asF64 v) then [] else ["call_int_to_float_rounds"]
+  | .int _ _, .f32 => if Spec.sameNumber v (toF32 (Spec.asF64 v)) then [] else ["call_int_to_float_rounds"]
+  | .f64 x, .f32 =>
+    if overflowFloat32 x then [] else if Spec.sameNumber v (toF32 x) then [] else ["call_f64_to_f32_rounds"]
+  | .f64 _, .i k | .f32 _, .i k =>
+    -- int64(f) is taken first (runtime.go:237), so exact integers in [2^63, 2^64) never reach a uint64/uint parameter
+    if k.signed then [] else
+    match Spec.exactInt? v with
+    | some i => if (2^63 : Int) ≤ i ∧ i ≤ k.hi then ["call_float_ge_2p63_to_uint_rejected"] else []
+    | none => []
+  | _, _ => []
+
+def devOut (ds : List String) : String := if ds.isEmpty then "-" else ",".intercalate ds
+
+def reply (m s : String) (dev : List String) : String := m ++ " " ++ s ++ " " ++ devOut dev
+
+def handle (ws : List String) : String :=
+  match ws with
+  | ["num", t, n] => match nt? t, num? n with
+    | some t, some v =>
+      reply (resOut numOut (convertNumeric v t)) (resOut numOut (Spec.convertNumeric v t)) (devNum v t)
+    | _, _ => "bad-op"
+  | _ => "bad-op"
 
 end OttoVerif.C16.Driver
